@@ -27,4 +27,9 @@ void SetDefault(void* new_value, std::uint64_t i) {
   GetMap()[i] = new_value;
 }
 
+std::uint64_t NextFreeIndex() noexcept {
+  static std::uint64_t sNextFreeIndex = 0;
+  return sNextFreeIndex++;
+}
+
 }  // namespace yaclib::detail::fiber
